@@ -415,6 +415,13 @@ class DynGraph(nx.Graph):
                                 self.time_to_edge[t[1] + 1] = {(u, v, "-"): None}
 
                     app[-1][1] = t[1]
+                elif t[1] <= max_end:
+                    # span already covered by the latest interval: presence is unchanged,
+                    # drop the events inserted above unless they coincide with its bounds
+                    if t[0] != app[-1][0]:
+                        self.time_to_edge.get(t[0], {}).pop((u, v, "+"), None)
+                    if e is not None and self.edge_removal and t[1] != max_end:
+                        self.time_to_edge.get(e, {}).pop((u, v, "-"), None)
                 else:
                     app.append(t)
         else:
